@@ -1,4 +1,275 @@
-use serde_json::{Value, json};
-pub fn run(_job: &Value, _prelude: &'static str) -> Value {
-    json!({"fatal": "modules: not built yet"})
+//! `modules` subcommand (property C17): evaluates a module graph held in memory.
+//!
+//! Job: `{"modules": {"a.mjs": "source", ...}, "entry": "a.mjs", "second_entry": "b.mjs"?,
+//!        "re_evaluate": bool, "setup": "script source"?, "load_delay": {"b.mjs": 3}?, "limits": {...}?}`
+//! or, for several independent graphs sharing one context, `"entries": [[what, name], ...]` instead of
+//! `entry` / `second_entry` / `re_evaluate` (evaluated in the given order).
+//!
+//! A custom `ModuleLoader` serves the sources by name (a leading `./` of the specifier is dropped),
+//! parses every module at most once (cache by name), and logs every `load_imported_module` call as
+//! `[referrer name, specifier]`. A load of a name listed in `load_delay` yields that many times
+//! before it completes (asynchronous host loading).
+//!
+//! Result: `{"loads": [[referrer, specifier], ...], "parsed": [names in parse order],
+//!           "evals": [{"what": "entry"|"re"|"second"|"second_re", "name", "state", "jobs", "t": [t0, t1],
+//!                       "loads": [l0, l1], "requeue": n}], "trace": [...]}`
+//! where `state` is the state of the promise returned by `Module::load_link_evaluate` after
+//! `Context::run_jobs` returned: `fulfilled`, `rejected:<__show of the reason>` or `pending` (pending
+//! with a drained queue = stuck), `jobs` is the completion of `run_jobs`, `t` the slice of the print
+//! trace and `loads` the slice of the loader log produced by that evaluation. `requeue` counts trace
+//! lines produced by a *second* `run_jobs` call (must be 0: the queue was drained).
+
+use crate::session::{classify_error, jsstr_to_string, show};
+use crate::util;
+use boa_engine::{
+    Context, JsNativeError, JsResult, JsValue, Module, NativeFunction, Source,
+    builtins::promise::PromiseState,
+    js_string,
+    module::{ModuleLoader, ModuleRequest, Referrer},
+    object::builtins::JsPromise,
+};
+use serde_json::{Map, Value, json};
+use std::cell::RefCell;
+use std::collections::BTreeMap;
+use std::future::Future;
+use std::pin::Pin;
+use std::rc::Rc;
+use std::task::{Context as TaskContext, Poll};
+
+fn emit_native(_: &JsValue, args: &[JsValue], ctx: &mut Context) -> JsResult<JsValue> {
+    let mut parts = Vec::new();
+    for a in args {
+        match a.to_string(ctx) {
+            Ok(s) => parts.push(jsstr_to_string(&s)),
+            Err(_) => parts.push("<emit-threw>".to_string()),
+        }
+    }
+    util::emit(parts.join(" "));
+    Ok(JsValue::undefined())
+}
+
+/// Future that returns `Pending` `n` times (and wakes itself) before completing.
+struct YieldN(u64);
+impl Future for YieldN {
+    type Output = ();
+    fn poll(mut self: Pin<&mut Self>, cx: &mut TaskContext<'_>) -> Poll<()> {
+        if self.0 == 0 {
+            Poll::Ready(())
+        } else {
+            self.0 -= 1;
+            cx.waker().wake_by_ref();
+            Poll::Pending
+        }
+    }
+}
+
+#[derive(Default)]
+struct MemLoader {
+    sources: BTreeMap<String, String>,
+    delays: BTreeMap<String, u64>,
+    cache: RefCell<Vec<(String, Result<Module, String>)>>,
+    log: RefCell<Vec<(String, String)>>,
+    parsed: RefCell<Vec<String>>,
+}
+
+fn norm(spec: &str) -> &str {
+    spec.strip_prefix("./").unwrap_or(spec)
+}
+
+impl MemLoader {
+    fn name_of(&self, m: &Module) -> Option<String> {
+        self.cache
+            .borrow()
+            .iter()
+            .find(|(_, c)| matches!(c, Ok(x) if x == m))
+            .map(|(n, _)| n.clone())
+    }
+
+    /// Parses (once) and returns the module called `name`.
+    fn get(&self, name: &str, context: &mut Context) -> JsResult<Module> {
+        if let Some((_, c)) = self.cache.borrow().iter().find(|(n, _)| n == name) {
+            return match c {
+                Ok(m) => Ok(m.clone()),
+                // a parse failure is reported again as the same class of error
+                Err(_) => Err(JsNativeError::syntax().with_message("module failed to parse").into()),
+            };
+        }
+        let Some(src) = self.sources.get(name) else {
+            return Err(JsNativeError::typ().with_message("module not found").into());
+        };
+        self.parsed.borrow_mut().push(name.to_string());
+        let r = Module::parse(Source::from_bytes(src.as_bytes()), None, context);
+        match r {
+            Ok(m) => {
+                self.cache.borrow_mut().push((name.to_string(), Ok(m.clone())));
+                Ok(m)
+            }
+            Err(e) => {
+                self.cache.borrow_mut().push((name.to_string(), Err(e.to_string())));
+                Err(e)
+            }
+        }
+    }
+}
+
+impl ModuleLoader for MemLoader {
+    async fn load_imported_module(
+        self: Rc<Self>,
+        referrer: Referrer,
+        request: ModuleRequest,
+        context: &RefCell<&mut Context>,
+    ) -> JsResult<Module> {
+        let spec = request.specifier().to_std_string_escaped();
+        let from = match &referrer {
+            Referrer::Module(m) => self.name_of(m).unwrap_or_else(|| "<unknown-module>".into()),
+            Referrer::Realm(_) => "<realm>".into(),
+            Referrer::Script(_) => "<script>".into(),
+        };
+        self.log.borrow_mut().push((from, spec.clone()));
+        let name = norm(&spec).to_string();
+        let delay = self.delays.get(&name).copied().unwrap_or(0);
+        if delay > 0 {
+            YieldN(delay).await;
+        }
+        self.get(&name, &mut context.borrow_mut())
+    }
+}
+
+fn promise_state(p: &JsPromise, ctx: &mut Context) -> String {
+    match p.state() {
+        PromiseState::Pending => "pending".into(),
+        PromiseState::Fulfilled(_) => "fulfilled".into(),
+        PromiseState::Rejected(v) => format!("rejected:{}", show(&v, ctx)),
+    }
+}
+
+fn drain(ctx: &mut Context) -> String {
+    match ctx.run_jobs() {
+        Ok(()) => "value:undefined".to_string(),
+        Err(e) => classify_error(&e, ctx),
+    }
+}
+
+fn evaluate_one(what: &str, name: &str, loader: &Rc<MemLoader>, ctx: &mut Context) -> Value {
+    let t0 = util::trace_len();
+    let l0 = loader.log.borrow().len();
+    let mut rec = Map::new();
+    rec.insert("what".into(), json!(what));
+    rec.insert("name".into(), json!(name));
+    match loader.get(name, ctx) {
+        Err(e) => {
+            // the entry itself does not parse: reported like a rejected evaluation promise
+            let c = classify_error(&e, ctx);
+            let c = c.strip_prefix("throw:").unwrap_or(&c).to_string();
+            rec.insert("state".into(), json!(format!("rejected:{c}")));
+            rec.insert("entry_parse_error".into(), json!(true));
+            rec.insert("jobs".into(), json!("value:undefined"));
+            rec.insert("requeue".into(), json!(0));
+        }
+        Ok(module) => {
+            let promise = module.load_link_evaluate(ctx);
+            let jobs = drain(ctx);
+            let state = promise_state(&promise, ctx);
+            let t_mid = util::trace_len();
+            // The queue is drained: a second drain must be a no-op.
+            let jobs2 = drain(ctx);
+            let state2 = promise_state(&promise, ctx);
+            rec.insert("state".into(), json!(state));
+            rec.insert("jobs".into(), json!(jobs));
+            rec.insert("requeue".into(), json!(util::trace_len() - t_mid));
+            if jobs2 != "value:undefined" || state2 != state {
+                rec.insert("second_drain".into(), json!([jobs2, state2]));
+            }
+        }
+    }
+    rec.insert("t".into(), json!([t0, util::trace_len()]));
+    rec.insert("loads".into(), json!([l0, loader.log.borrow().len()]));
+    Value::Object(rec)
+}
+
+pub fn run(job: &Value, prelude: &'static str) -> Value {
+    let mut loader = MemLoader::default();
+    if let Some(m) = job.get("modules").and_then(Value::as_object) {
+        for (k, v) in m {
+            loader.sources.insert(k.clone(), v.as_str().unwrap_or("").to_string());
+        }
+    }
+    if let Some(m) = job.get("load_delay").and_then(Value::as_object) {
+        for (k, v) in m {
+            loader.delays.insert(k.clone(), v.as_u64().unwrap_or(0));
+        }
+    }
+    // `"entries": [[what, name], ...]` (several independent graphs in one job, evaluated in turn) replaces
+    // `entry` / `second_entry` / `re_evaluate`.
+    let entries: Option<Vec<(String, String)>> = job.get("entries").and_then(Value::as_array).map(|a| {
+        a.iter()
+            .filter_map(|e| {
+                let e = e.as_array()?;
+                Some((e.first()?.as_str()?.to_string(), e.get(1)?.as_str()?.to_string()))
+            })
+            .collect()
+    });
+    let entry = job.get("entry").and_then(Value::as_str).unwrap_or("");
+    if entries.is_none() && entry.is_empty() {
+        return json!({"fatal": "modules: no entry"});
+    }
+    let loader = Rc::new(loader);
+    let mut ctx = match Context::builder().module_loader(loader.clone()).build() {
+        Ok(c) => c,
+        Err(e) => return json!({"fatal": format!("context build: {e}")}),
+    };
+    if let Err(e) =
+        ctx.register_global_builtin_callable(js_string!("__emit"), 1, NativeFunction::from_fn_ptr(emit_native))
+    {
+        return json!({"fatal": format!("register __emit: {e}")});
+    }
+    if !prelude.is_empty() {
+        if let Err(e) = ctx.eval(Source::from_bytes(prelude)) {
+            return json!({"fatal": format!("prelude failed: {e}")});
+        }
+    }
+    if let Some(s) = job.get("setup").and_then(Value::as_str) {
+        if let Err(e) = ctx.eval(Source::from_bytes(s)) {
+            return json!({"fatal": format!("setup failed: {e}")});
+        }
+    }
+    if let Some(l) = job.get("limits") {
+        if let Some(n) = l.get("loop").and_then(Value::as_u64) {
+            ctx.runtime_limits_mut().set_loop_iteration_limit(n);
+        }
+        if let Some(n) = l.get("recursion").and_then(Value::as_u64) {
+            ctx.runtime_limits_mut().set_recursion_limit(n as usize);
+        }
+        if let Some(n) = l.get("stack").and_then(Value::as_u64) {
+            ctx.runtime_limits_mut().set_stack_size_limit(n as usize);
+        }
+    }
+    let _ = util::take_trace();
+
+    let re = job.get("re_evaluate").and_then(Value::as_bool).unwrap_or(false);
+    let mut evals = Vec::new();
+    if let Some(entries) = entries {
+        for (what, name) in &entries {
+            evals.push(evaluate_one(what, name, &loader, &mut ctx));
+        }
+    } else {
+        evals.push(evaluate_one("entry", entry, &loader, &mut ctx));
+        if re {
+            evals.push(evaluate_one("re", entry, &loader, &mut ctx));
+        }
+        if let Some(second) = job.get("second_entry").and_then(Value::as_str) {
+            evals.push(evaluate_one("second", second, &loader, &mut ctx));
+            if re {
+                evals.push(evaluate_one("second_re", second, &loader, &mut ctx));
+            }
+        }
+    }
+    let loads: Vec<Value> = loader.log.borrow().iter().map(|(a, b)| json!([a, b])).collect();
+    let parsed: Vec<Value> = loader.parsed.borrow().iter().map(|n| json!(n)).collect();
+    json!({
+        "loads": loads,
+        "parsed": parsed,
+        "evals": evals,
+        "trace": util::take_trace(),
+    })
 }
